@@ -109,6 +109,73 @@ def run_fibdemux(case):
     return {"nontrivial": "table hit" in classes and bool(miss), "classes": sorted(classes)}
 
 
+def run_fibdemux_history(case):
+    """the rule is evaluated against the tables as they are at each put(): end devices and table entries are added, replaced
+    and removed between packets (the public `ends` dict, in-place edits of the fib dict, the `fib` setter)"""
+    n = case["nouts"]
+    outs = [Rec(f"out{i}") for i in range(n)]
+    default = Rec("default") if case["default"] else None
+    fib = {}
+    dm = guarded("C18.no_exception", lambda: FIBDemux(outs=outs, fib=fib, default_out=default), "FIBDemux()")
+    ends = {}
+    all_ends = []
+    classes = set()
+    routed_before = set()
+    for i, op in enumerate(case["ops"]):
+        k = op[0]
+        if k == "put":
+            f = op[1]
+            pkt = mkpkt(i, f)
+            guarded("C18.no_exception", lambda: dm.put(pkt), f"FIBDemux.put(flow {f}) after {case['ops'][:i]}")
+            if f in ends:
+                target = ends[f]
+            elif f in fib and 0 <= fib[f] < n:
+                target = outs[fib[f]]
+            else:
+                target = default
+            expect_only(outs + all_ends + ([default] if default else []), target, pkt,
+                        f"FIBDemux after {case['ops'][:i + 1]}", "fibdemux/history")
+            routed_before.add(f)
+        elif k == "end_on":
+            d = Rec(f"end{op[1]}.{i}")
+            all_ends.append(d)
+            ends[op[1]] = d
+            dm.ends[op[1]] = d
+            if op[1] in routed_before:
+                classes.add("end device registered after the flow was routed")
+        elif k == "end_off":
+            if op[1] in ends:
+                del ends[op[1]]
+                del dm.ends[op[1]]
+                if op[1] in routed_before:
+                    classes.add("end device removed after the flow was routed")
+        elif k == "fib_edit":
+            fib[op[1]] = op[2]
+            if op[1] in routed_before:
+                classes.add("table entry changed after the flow was routed")
+        elif k == "fib_del":
+            fib.pop(op[1], None)
+        elif k == "fib_new":
+            fib = {int(a): b for a, b in op[1]}
+            dm.fib = fib
+            classes.add("table replaced through the setter")
+    return {"nontrivial": len(classes) >= 2, "classes": sorted(classes)}
+
+
+def fibdemux_history_strategy(tier):
+    flow = st.integers(0, 4)
+    op = kgen.weighted([
+        (st.tuples(st.just("put"), flow).map(list), 6),
+        (st.tuples(st.just("end_on"), flow).map(list), 2),
+        (st.tuples(st.just("end_off"), flow).map(list), 1),
+        (st.tuples(st.just("fib_edit"), flow, st.integers(0, 3)).map(list), 3),
+        (st.tuples(st.just("fib_del"), flow).map(list), 1),
+        (st.tuples(st.just("fib_new"), st.lists(st.tuples(flow, st.integers(0, 3)).map(list), max_size=4,
+                                                 unique_by=lambda x: x[0])).map(list), 1),
+    ])
+    return st.fixed_dictionaries({"nouts": st.integers(1, 3), "default": st.booleans(), "ops": st.lists(op, min_size=4, max_size=20)})
+
+
 # ------------------------------------------------------------------------------------------- switches
 def run_switch(case):
     lab = Lab(clause="C18.no_exception")
@@ -565,6 +632,9 @@ PROP = Property(
         Facet("fibdemux", fibdemux_strategy, run_fibdemux, quick=600, thorough=3000, exhaustive=fibdemux_exhaustive,
               essential=["empty table", "end device", "table hit", "unknown flow -> default", "unknown flow, no default",
                          "entry outside outs"]),
+        Facet("fibdemux_history", fibdemux_history_strategy, run_fibdemux_history, quick=500, thorough=3000,
+              essential=["end device registered after the flow was routed", "end device removed after the flow was routed",
+                         "table entry changed after the flow was routed", "table replaced through the setter"]),
         Facet("switch", switch_strategy, run_switch, quick=400, thorough=2000, essential=["routed", "nowhere", "empty table"]),
         Facet("hub", hub_strategy, run_hub, quick=400, thorough=2000,
               essential=["constructor", "add_endpoint", "with port devices", "without port devices", "sender inside", "sender outside"]),
